@@ -82,6 +82,56 @@ def dec(e, mk=dict):
     raise ValueError("cannot decode %r" % (e,))
 
 
+# ---- shared containers: ["def", name, value] places a container and names it, ["ref", name] places the SAME object again
+
+def has_sharing(e):
+    t = e[0]
+    if t in ("def", "ref"):
+        return True
+    if t == "l":
+        return any(has_sharing(v) for v in e[1])
+    if t == "m":
+        return any(has_sharing(k) or has_sharing(v) for k, v in e[1])
+    return False
+
+
+def expand(e, env=None):
+    """The content of an encoding with def / ref nodes: every reference written out (document order)."""
+    env = {} if env is None else env
+    t = e[0]
+    if t == "def":
+        v = expand(e[2], env)
+        env[e[1]] = v
+        return v
+    if t == "ref":
+        return json.loads(json.dumps(env[e[1]]))
+    if t == "l":
+        return ["l", [expand(v, env) for v in e[1]]]
+    if t == "m":
+        return ["m", [[expand(k, env), expand(v, env)] for k, v in e[1]]]
+    return e
+
+
+def dec_shared(e, mk=dict, env=None):
+    """Objects for an encoding with def / ref nodes; a ref yields the very object its def produced."""
+    env = {} if env is None else env
+    t = e[0]
+    if t == "def":
+        v = dec_shared(e[2], mk, env)
+        env[e[1]] = v
+        return v
+    if t == "ref":
+        return env[e[1]]
+    if t == "l":
+        return [dec_shared(v, mk, env) for v in e[1]]
+    if t == "m":
+        d = mk()
+        for k, v in e[1]:
+            d[dec(k, mk)] = dec_shared(v, mk, env)
+        return d
+    return dec(e, mk)
+
+
 def fp(e):
     """Structural fingerprint of an *encoding* (canonical text; order, types, nesting all count)."""
     return json.dumps(e, ensure_ascii=True, separators=(",", ":"))
@@ -270,6 +320,10 @@ def _yscalar(e, style):
 
 def _yflow(e, style):
     t = e[0]
+    if t == "def":
+        return "&%s %s" % (e[1], _yflow(e[2], style))
+    if t == "ref":
+        return "*%s" % e[1]
     if t == "l":
         return "[" + ", ".join(_yflow(v, style) for v in e[1]) + "]"
     if t == "m":
@@ -346,6 +400,8 @@ def _first_diff(a, b):
         return None
     if t == "s":
         both = a[1] + b[1]
+        if any(ord(c) < 0x20 or 0x7f <= ord(c) < 0xa0 for c in both):
+            return "string_control_character_escaping"
         if "\\" in both:
             return "string_backslash_escaping"
         if "'" in both or '"' in both:
